@@ -72,13 +72,13 @@ let () = iter_lines (fun line ->
     print_endline (match fn with
       | "remove" -> show (Gen_ShiftLoops.coq_ShiftRemove items zn zc zi zk)
       | "insert" -> show (Gen_ShiftLoops.coq_ShiftInsert items zn zc zi zk item_idx)
-      | "aaddback" ->
+      | "aaddback" | "aaddbackm" ->
         (* Array::AddBack(const Item&) executed from the AST facts (FactsProofs.gen_add_back_f): itemBuffer in cell 2^64 + 1 *)
         let big k = z_of_string (Z.to_string (Z.add (Z.shift_left Z.one 64) (Z.of_int k))) in
         let aliased = int_of_string iis < ni in
         let it = if aliased then z_of_string iis else big 7 in
         let items2 = fun j -> if string_of_z j = string_of_z (big 7) then z_of_int 5 else items j in
-        (match FactsProofs.gen_add_back_f false items2 zn zc it (big 1) with
+        (match (if fn = "aaddbackm" then FactsProofs.gen_add_back_move_f else FactsProofs.gen_add_back_f) false items2 zn zc it (big 1) with
          | GenPrelude.Ok ((items', cnt'), _) ->
            let m = int_of_z cnt' in
            "ok [" ^ Stdlib.String.concat "," (Stdlib.List.init m (fun k -> string_of_z (items' (z_of_int k)))) ^ "]"
